@@ -470,7 +470,7 @@ tiny_add_sub_dbl(int curve_idx) {
 			for (j = 0; j < GRP_N; j ++)
 				do_add_pair(GRP[i], GRP[j], bits);
 	} else {			/* alphabet x group in both operand positions */
-		step = vh_thorough ? ((8 == curve_idx) ? 1 : 7) : 61;
+		step = vh_thorough ? ((8 == curve_idx) ? 3 : 7) : 61;
 		for (a = 0; a < PA_N; a ++) {
 			for (j = 0; j < (uint32_t)PA_N; j ++)
 				do_add_pair(PA[a], PA[j], bits);
@@ -525,7 +525,7 @@ tiny_unk(void) {
 	uint32_t i, k;
 	int a, j;
 	np_t *mult;
-	int rich = (0 == strcmp(TC->name, "t8_gen_h4_cyc") || (vh_thorough && 0 == strcmp(TC->name, "t8_m3_h4_v4")));
+	int rich = (0 == strcmp(TC->name, "t8_gen_h4_cyc"));	/* cofactor 4: points of order 1, 2, 4, n, 2n, 4n */
 	int whole_group = (rich && (UNK_TABLE_LOG2 <= 4) && (vh_thorough || UNK_TABLE_LOG2 <= 2));
 
 #ifdef C02_PROBE
@@ -642,9 +642,11 @@ tiny_twin(int smallest) {
 	G.x = TC->gx; G.y = TC->gy; G.inf = 0;
 	mg = n_multiples(G, KMAX + 1);
 	if (smallest && C02_TWIN_FULL) {	/* all (k1, k2, Q): k in [0, n], Q the whole group (quick: alphabet) */
-		uint32_t cntq = vh_thorough ? GRP_N : (uint32_t)PA_N;
+		/* Q: the whole group on the smallest curve (thorough), the operand alphabet otherwise */
+		int whole = (vh_thorough && 0 == strcmp(TC->name, "t8_gen_h4_cyc"));
+		uint32_t cntq = whole ? GRP_N : (uint32_t)PA_N;
 		for (i = 0; i < cntq; i ++) {
-			np_t Q = vh_thorough ? GRP[i] : PA[i];
+			np_t Q = whole ? GRP[i] : PA[i];
 			mq = n_multiples(Q, n + 1);
 			for (k1 = 0; k1 <= n; k1 ++)
 				for (k2 = 0; k2 <= n; k2 ++)
